@@ -343,6 +343,7 @@ func join(a, b context, node parse.Node, nodeName string) context {
 
 	// A name is open, or was split, after the branch node if it is in any branch.
 	a.nameOpen = a.nameOpen || b.nameOpen
+	a.tagNameOpen = a.tagNameOpen || b.tagNameOpen
 	a.element.split = a.element.split || b.element.split
 	a.element.attrSplit = a.element.attrSplit || b.element.attrSplit
 	a.attr.split = a.attr.split || b.attr.split
@@ -431,7 +432,7 @@ func (e *escaper) escapeBranch(c context, n *parse.BranchNode, nodeName string) 
 		// (A loop body that is itself an attribute name is accepted: the name it repeats
 		// is not treated as split.)
 		r := c0
-		r.nameOpen = false
+		r.nameOpen, r.tagNameOpen = false, false
 		c1, _ := e.escapeListConditionally(r, n.List, nil)
 		c0 = join(c0, c1, n, nodeName)
 		if c0.state == stateError {
@@ -522,6 +523,9 @@ func mangle(c context, templateName string) string {
 	}
 	if c.nameOpen {
 		s += "_nameOpen"
+	}
+	if c.tagNameOpen {
+		s += "_tagNameOpen"
 	}
 	if c.element.split || c.element.attrSplit || c.attr.split {
 		s += "_nameSplit"
@@ -662,6 +666,10 @@ func (e *escaper) escapeText(c context, n *parse.TextNode) context {
 			c.attr.split, c.element.attrSplit = true, true
 		}
 	}
+	if c.tagNameOpen && continuesName(stateTag, s[0]) {
+		// `<textarea{{if .C}} r{{end}}ows="2">`: the tag name goes on if the branch is not taken.
+		c.element.split = true
+	}
 	for i != len(s) {
 		if e.ns.cspCompatible && strings.HasPrefix(c.attr.name, "on") {
 			return context{
@@ -724,7 +732,8 @@ func (e *escaper) escapeText(c context, n *parse.TextNode) context {
 		e.editTextNode(n, b.Bytes())
 	}
 	// In stateTag the text ends with a letter or digit only directly after the tag name.
-	c.nameOpen = c.state == stateAttrName || c.state == stateTag && asciiAlphaNum(s[len(s)-1])
+	c.tagNameOpen = c.state == stateTag && asciiAlphaNum(s[len(s)-1])
+	c.nameOpen = c.state == stateAttrName || c.tagNameOpen
 	return c
 }
 
